@@ -1,7 +1,7 @@
 #!/bin/sh
 # tools/covreport.sh [tier] : which statements of PDOK/texel do the checks execute at all?  Builds the harness and the CLI with
 # Go's coverage instrumentation (VERIF_COVER), runs every check of the tier, and prints per-function statement coverage of the
-# non-test code of /repo.  Code that no check executes is code the conformance step says nothing about (DESIGN.md §10.8).
+# non-test code of /repo.  Code that no check executes is code the conformance step says nothing about (DESIGN.md §10.7).
 cd /verif || exit 2
 . tools/env.sh
 T=${1:-quick}
